@@ -154,7 +154,7 @@ def build_fw():
         if not os.path.exists(o):
             for old in glob.glob(os.path.join(d, name + '-*.o')):
                 os.remove(old)
-            cmds.append([CXX, '-std=gnu++17'] + COMMON + extra + ['-I' + os.path.join(ROOT, 'engine'), '-I' + os.path.join(ROOT, 'ref'),
+            cmds.append([CXX, '-std=gnu++17', '-Wno-varargs'] + COMMON + extra + ['-I' + os.path.join(ROOT, 'engine'), '-I' + os.path.join(ROOT, 'ref'),
                          '-I' + os.path.join(ROOT, 'sim'), '-c', sp, '-o', o])
     if cmds:
         t0 = time.time()
@@ -199,7 +199,8 @@ def build_harness(pid, fuzz=False):
     link += [fw['engine_fuzz' if fuzz else 'engine_main'], fw['engine_common'], fw['allocshim']]
     link += [v for k, v in fw.items() if k.startswith('ref_')]
     for s in sims:
-        link.append(fw['sim_' + s])
+        if 'sim_' + s in fw:
+            link.append(fw['sim_' + s])
     link += [os.path.join(libd, 'libksi.a')]
     wraps = []
     if 'simsock' in sims:
